@@ -250,8 +250,14 @@ def check_fit_input(coordinates, data, weights, unpack=True):
                     len(data), len(weights)
                 )
             )
-        if any(i.size != j.size for i in weights for j in data):
-            raise ValueError("Weights must have the same size as the data array.")
+        # Weights must match the data element by element: same shape, or the
+        # raveled version of it (which is what this function returns)
+        if any(
+            np.shape(i) != np.shape(j) and np.shape(i) != (np.size(j),)
+            for i in weights
+            for j in data
+        ):
+            raise ValueError("Weights must have the same shape as the data array.")
         weights = tuple(np.ravel(i) for i in weights)
     else:
         weights = tuple([None] * len(data))
